@@ -1,6 +1,7 @@
 From Coq Require Import Extraction ExtrOcamlBasic.
-Require Import NixV.Base.Prelude NixV.Gen.GenTables NixV.Units.UnitsModel NixV.Store.Db NixV.Store.DbOps NixV.Store.DbObserve NixV.Store.DbSession.
+Require Import NixV.Base.Prelude NixV.Gen.GenTables NixV.Units.UnitsModel NixV.Store.Db NixV.Store.DbOps NixV.Store.DbObserve NixV.Store.DbSession NixV.Store.DbRoutes.
 Extraction Language OCaml.
 Extraction "model_C08.ml" step sstep init_sess handle_valid observe empty_db current_behaviour repaired code_today
   children find_ent alive looksLikeUUID e_oid e_idx e_kind e_parent e_name get_l
+  list_filtered members_filtered dims_filtered has_positions position_count col_indices col_names
   unitSanitizer isSIUnit.
